@@ -18,21 +18,21 @@ type scope struct {
 }
 
 type Solver struct {
-	name    string
-	cmd     *exec.Cmd
-	in      io.WriteCloser
-	out     *bufio.Reader
-	scopes  []*scope
-	log     io.Writer
-	Queries int
-	Errors  []string
-	LastReason string
-	lines   chan string
-	Dead    bool
+	name        string
+	cmd         *exec.Cmd
+	in          io.WriteCloser
+	out         *bufio.Reader
+	scopes      []*scope
+	log         io.Writer
+	Queries     int
+	Errors      []string
+	LastReason  string
+	lines       chan string
+	Dead        bool
 	hardTimeout time.Duration
-	kind    string
-	timeoutMs int
-	Time    time.Duration
+	kind        string
+	timeoutMs   int
+	Time        time.Duration
 }
 
 var totalQueries, totalSolverNs int64
